@@ -917,7 +917,8 @@ func run(c *hx.Ctx) error {
 		}
 		// shrink with the real code: one go test per round would be too slow, so candidates
 		// are evaluated in batches (see shrinkDoc)
-		shrunk, sdetail := shrinkDoc(d, cl)
+		class0 := explain(d, cl, detail, r).id
+		shrunk, sdetail := shrinkDoc(d, cl, class0)
 		if sdetail == "" {
 			sdetail = detail
 		}
@@ -1070,18 +1071,26 @@ func evalDocsR(cands []string) ([]string, []string, []tresult, error) {
 // shrinkDoc: greedy removal on the real code. First halving chunk sizes (every round evaluates
 // all deletions of one chunk size in one batch and takes the first that still fails with the
 // same clause); once the document is short, every chunk of every size, largest first.
-func shrinkDoc(d string, clause string) (string, string) {
+//
+// The attribution is part of what a shrinking step must keep: a candidate is taken only if it
+// fails with the same clause AND is explained by the same finding class as the document it
+// comes from (or by none, like it). Otherwise the witness of a regression, which no class
+// explains, could shrink into a smaller document that fails on the unchanged tree as well.
+func shrinkDoc(d string, clause string, class string) (string, string) {
 	cur, detail := d, ""
+	same := func(doc, cl, det string, r tresult) bool {
+		return cl == clause && explain(doc, cl, det, r).id == class
+	}
 	try := func(cands []string) bool {
 		if len(cands) == 0 {
 			return false
 		}
-		cls, dets, err := evalDocs(cands)
+		cls, dets, rs, err := evalDocsR(cands)
 		if err != nil {
 			return false
 		}
 		for i, cl := range cls {
-			if cl == clause {
+			if same(cands[i], cl, dets[i], rs[i]) {
 				cur, detail = cands[i], dets[i]
 				return true
 			}
@@ -1124,14 +1133,14 @@ func shrinkDoc(d string, clause string) (string, string) {
 		}
 	}
 	if len(cands) > 0 {
-		if cls, _, err := evalDocs(cands); err == nil {
+		if cls, dets, rs, err := evalDocsR(cands); err == nil {
 			b := []byte(cur)
-			for j, cl := range cls {
-				if cl == clause {
+			for j := range cls {
+				if same(cands[j], cls[j], dets[j], rs[j]) {
 					b[at[j]] = 'a'
 				}
 			}
-			if c2, d2, err := evalDocs([]string{string(b)}); err == nil && c2[0] == clause {
+			if c2, d2, r2, err := evalDocsR([]string{string(b)}); err == nil && same(string(b), c2[0], d2[0], r2[0]) {
 				cur, detail = string(b), d2[0]
 			}
 		}
